@@ -43,8 +43,11 @@ def gen(ctx, rng):
         nz = int(round(zshare * n))
         if nz:
             x[rng.choice(n, size=nz, replace=False)] = 0.0
-        nd = -9999.0
-        miss = rng.random(n) < rng.choice([0.0, 0.1, 0.3])
+        # the nodata value may be positive (255, 32767: the customary markers of unsigned / int16 rasters): a nodata cell is not a
+        # rainfall amount and must not enter the fit
+        nd = [-9999.0, -9999.0, 32767.0, -9999.0, 255.0][it % 5]
+        x[x == nd] -= 1.0
+        miss = rng.random(n) < rng.choice([0.0, 0.1, 0.3]) if nd < 0 else rng.random(n) < rng.choice([0.1, 0.3])
         if miss.sum() > n - 3:
             miss[:] = False
         x[miss] = nd
@@ -114,7 +117,7 @@ def run(ctx):
         t = [str(np.datetime64("2001-01-15") + np.timedelta64(30 * k, "D"))[:10] for k in range(60)]
         cube = np.round(rng.gamma([2.0, 40.0][it % 2], [8000.0, 2500.0][it % 2] if dt != "uint16" else 900.0, size=(len(t), 2, 2)))
         cube[rng.random(cube.shape) < 0.1] = 0
-        ndw = -9999.0 if dt != "uint16" else 65535.0
+        ndw = -9999.0 if dt != "uint16" else 32767.0
         cube[rng.random(cube.shape) < 0.05] = ndw
         acc.append(dict(cube=cube.tolist(), dtype=dt, nodata=ndw, time=t, groups=None, begin=[None, "2002-01-01"][it % 2], end=None))
     kw_cube = rng.gamma(2.0, 40.0, size=(2, 2, 24))
